@@ -13,4 +13,6 @@ INVARIANT Transparent
 INVARIANT NeverFatal
 INVARIANT Effective
 INVARIANT StoreSound
+INVARIANT KeyDeterminesResult
+INVARIANT LookupFindsOwnStore
 INVARIANT Emit
